@@ -436,6 +436,27 @@ func validateSecurityRequirement(ctx context.Context, input *RequestValidationIn
 		}
 	}
 
+	// whichever way this function returns - also on an undeclared scheme or a failing
+	// AuthenticationFunc that consumed the body - leave a readable body behind
+	if data != nil {
+		defer func() {
+			var err error
+			input.Request.Body = nil
+			if input.Request.GetBody != nil {
+				if input.Request.Body, err = input.Request.GetBody(); err != nil {
+					input.Request.Body = nil
+				}
+			}
+			if input.Request.Body == nil {
+				input.Request.ContentLength = int64(len(data))
+				input.Request.GetBody = func() (io.ReadCloser, error) {
+					return io.NopCloser(bytes.NewReader(data)), nil
+				}
+				input.Request.Body, _ = input.Request.GetBody() // no error return
+			}
+		}()
+	}
+
 	// For each scheme for the requirement
 	for _, name := range names {
 		var securityScheme *openapi3.SecurityScheme
